@@ -15,6 +15,8 @@ PID = 'C20'
 LEVEL = 'exploration'
 BUDGET = {'quick': 8000, 'thorough': 300000}
 CAP_S = {'quick': 150, 'thorough': 3000}
+# thorough tier only: 300 s x 8 coverage-guided libFuzzer campaigns over the same strategy and oracle (vlib/fuzz_driver.py)
+FUZZ = {'thorough': (300, 8)}
 RULE = ('case = object AST from a recursive strategy: scalars, builtin containers of any nesting and item mix (empty, homogeneous, '
         'heterogeneous), dict views, ranges, bytes-likes, collections types, user-defined Sequence/Mapping/Set (ABC based and duck-typed by dunder methods), callables, '
         'classes, iterators/generators, self-referential containers (direct and mutual). Round-trip oracle: '
